@@ -762,6 +762,8 @@ impl PackageBuilder {
                 let header = payload::stripped_cpio_header(file_index as u32);
                 archive.write_all(&header)?;
                 archive.write_all(&content)?;
+                // file data is padded to a multiple of 4 bytes, as in the newc format
+                archive.write_all(&[0u8; 3][..(4 - content.len() % 4) % 4])?;
                 archive.flush()?;
             };
 
